@@ -546,199 +546,25 @@ theorem getInstanceData_ok_iff {e : Elem} {s s' : St} {i o : Option GridId} {w :
     rw [h]
 
 
-/-! ## The unrepaired code: transparent for *consistent* elements only -/
-namespace Old
+/-! ### Objects with hidden state, generically -/
 
-/-! ### Soundness invariant and transparency for consistent elements (gridDep = wlDep = true) -/
+/-- Calls on one shared object, threading its hidden state. -/
+def runObj {σ X Y : Type} (call : σ → X → σ × Y) : σ → List X → List Y
+  | _, [] => []
+  | s, x :: xs => (call s x).2 :: runObj call (call s x).1 xs
 
-def Consistent (e : Elem) : Prop :=
-  e.gridDep = true ∧ e.wlDep = true ∧
-  (∀ a b, e.getOut a = some b → e.getIn b = some a) ∧
-  (∀ a b, e.getIn b = some a → e.getOut a = some b) ∧
-  (∀ a, ∃ b, e.getOut a = some b) ∧ (∀ b, ∃ a, e.getIn b = some a)
-
-def WF (e : Elem) (v : Inst) : Prop :=
-  ∃ a b k, v.i = some a ∧ v.o = some b ∧ v.w = some k ∧ e.getOut a = some b ∧ e.getIn b = some a
-
-def KeyOf (k : Key) (v : Inst) : Prop :=
-  k.w = v.w ∧ (k.i = v.i ∨ k.i = none) ∧ (k.o = v.o ∨ k.o = none) ∧ ¬(k.i = none ∧ k.o = none)
-
-def Sound (e : Elem) (s : St) : Prop :=
-  ∀ p ∈ s.cache, WF e p.2 ∧ KeyOf p.1 p.2 ∧ p.2.ver = s.ver
-
-theorem lookup_mem {cache : List (Key × Inst)} {k : Key} {v : Inst} (h : lookup cache k = some v) :
-    (k, v) ∈ cache := by
-  unfold lookup at h
-  cases hf : cache.find? (fun p => decide (p.1 = k)) with
-  | none => simp [hf] at h
-  | some p =>
-    simp [hf] at h
-    have hm := List.mem_of_find?_eq_some hf
-    have hp := List.find?_some hf
-    simp at hp
-    cases p with
-    | mk a b => simp at hp h; subst hp; subst h; exact hm
-
-theorem lookupFirst_mem {cache : List (Key × Inst)} {ks : List Key} {v : Inst}
-    (h : lookupFirst cache ks = some v) : ∃ k ∈ ks, (k, v) ∈ cache := by
-  induction ks with
-  | nil => simp [lookupFirst] at h
-  | cons k ks ih =>
-    unfold lookupFirst at h
-    cases hl : lookup cache k with
-    | some w =>
-      simp [hl] at h; subst h
-      exact ⟨k, by simp, lookup_mem hl⟩
-    | none =>
-      simp [hl] at h
-      obtain ⟨k', hk', hm⟩ := ih h
-      exact ⟨k', by simp [hk'], hm⟩
-
-theorem assign_mem {cache : List (Key × Inst)} {k : Key} {v : Inst} {p : Key × Inst}
-    (h : p ∈ assign cache k v) : p ∈ cache ∨ p = (k, v) := by
-  unfold assign at h
-  split at h
-  · simp only [List.mem_map] at h
-    obtain ⟨q, hq, hqp⟩ := h
-    split at hqp
-    · right; exact hqp.symm
-    · left; subst hqp; exact hq
-  · simp at h
-    rcases h with h | h
-    · left; exact h
-    · right; exact h
-
-theorem foldl_assign_mem {keys : List Key} {cache : List (Key × Inst)} {v : Inst} {p : Key × Inst}
-    (h : p ∈ keys.foldl (fun c k => assign c k v) cache) : p ∈ cache ∨ (p.2 = v ∧ p.1 ∈ keys) := by
-  induction keys generalizing cache with
-  | nil => left; simpa using h
-  | cons k ks ih =>
-    simp only [List.foldl_cons] at h
-    rcases ih h with h1 | ⟨h2, h3⟩
-    · rcases assign_mem h1 with h1 | h1
-      · left; exact h1
-      · right; subst h1; simp
-    · right; exact ⟨h2, by simp [h3]⟩
-
-theorem forward_transparent (e : Elem) (hc : Consistent e) (s s' : St) (hs : Sound e s)
-    (a : GridId) (k : WlKey) (v : Inst)
-    (h : getInstanceData e s (some a) none (some k) = some (s', v)) :
-    v = fresh e s.ver (some a) none (some k) ∧ Sound e s' := by
-  obtain ⟨hg, hw, hoi, hio, htot, _⟩ := hc
-  unfold getInstanceData at h
-  simp only [getKeys, hg, hw, if_true] at h
-  -- first stage
-  split at h
-  · rename_i v1 h1
-    simp at h
-    obtain ⟨rfl, rfl⟩ := h
-    refine ⟨?_, hs⟩
-    obtain ⟨k1, hk1, hm⟩ := lookupFirst_mem h1
-    simp at hk1; subst hk1
-    obtain ⟨⟨a', b', k', hi, ho, hwv, hout, hin⟩, ⟨hkw, hki, hko, _⟩, hver⟩ := hs _ hm
-    have ha : a' = a := by
-      rcases hki with h | h
-      · have h' : some a = v1.i := h
-        rw [hi] at h'; simpa using h'.symm
-      · exact absurd h (by simp)
-    subst ha
-    have hk : k' = k := by
-      have h' : some k = v1.w := hkw
-      rw [hwv] at h'; simpa using h'.symm
-    subst hk
-    unfold fresh
-    rcases v1 with ⟨vi, vo, vw, vv⟩
-    simp at hi ho hwv hver
-    simp [hout, hi, ho, hwv, hver]
-  · rename_i h1
-    -- second stage: resolve output grid
-    cases hout : e.getOut a with
-    | none =>
-      obtain ⟨b, hb⟩ := htot a
-      rw [hb] at hout; simp at hout
-    | some b =>
-      simp only [hout, Option.bind, getKeys, hg, hw, if_true] at h
-      split at h
-      · rename_i v2 h2
-        simp at h
-        obtain ⟨rfl, rfl⟩ := h
-        refine ⟨?_, hs⟩
-        obtain ⟨k2, hk2, hm⟩ := lookupFirst_mem h2
-        obtain ⟨⟨a', b', k', hi, ho, hwv, hout', hin'⟩, ⟨hkw, hki, hko, hnn⟩, hver⟩ := hs _ hm
-        have hin := hoi a b hout
-        simp at hk2
-        have hk : k' = k := by
-          have h' : k2.w = some k := by rcases hk2 with rfl | rfl | rfl <;> rfl
-          have h'' : k2.w = v2.w := hkw
-          rw [hwv, h'] at h''; simpa using h''.symm
-        subst hk
-        have hcase : k2.i = some a ∨ k2.o = some b := by
-          rcases hk2 with rfl | rfl | rfl
-          · left; rfl
-          · left; rfl
-          · right; rfl
-        have hab : a' = a ∧ b' = b := by
-          rcases hcase with hc | hc
-          · rcases hki with h | h
-            · rw [hc, hi] at h
-              have : a' = a := by simpa using h.symm
-              subst this
-              rw [hout] at hout'
-              exact ⟨rfl, by simpa using hout'.symm⟩
-            · rw [hc] at h; exact absurd h (by simp)
-          · rcases hko with h | h
-            · rw [hc, ho] at h
-              have : b' = b := by simpa using h.symm
-              subst this
-              rw [hin] at hin'
-              exact ⟨by simpa using hin'.symm, rfl⟩
-            · rw [hc] at h; exact absurd h (by simp)
-        obtain ⟨rfl, rfl⟩ := hab
-        unfold fresh
-        rcases v2 with ⟨vi, vo, vw, vv⟩
-        simp at hi ho hwv hver
-        simp [hout, hi, ho, hwv, hver]
-      · rename_i h2
-        -- creation
-        simp only [Option.map_eq_some_iff] at h
-        obtain ⟨s1, hadd, hpair⟩ := h
-        simp at hpair
-        obtain ⟨rfl, rfl⟩ := hpair
-        refine ⟨by simp [fresh, hout], ?_⟩
-        unfold addToCache at hadd
-        simp only [Option.map_eq_some_iff] at hadd
-        obtain ⟨se, hev, rfl⟩ := hadd
-        -- evicted state is sound and has same version
-        have hse : Sound e se ∧ se.ver = s.ver := by
-          split at hev
-          · split at hev
-            · simp at hev
-            · rename_i k0 v0 rest hcache
-              split at hev
-              · simp at hev
-              · split at hev
-                · simp at hev
-                · simp at hev; subst hev
-                  refine ⟨?_, rfl⟩
-                  intro p hp
-                  have : p ∈ s.cache := by
-                    rw [hcache]; exact List.mem_cons_of_mem _ (List.mem_of_mem_drop hp)
-                  exact hs p this
-          · simp at hev; subst hev; exact ⟨hs, rfl⟩
-        obtain ⟨hse1, hse2⟩ := hse
-        intro p hp
-        simp only at hp
-        rcases foldl_assign_mem hp with h | ⟨h1, h2⟩
-        · have := hse1 p h
-          simpa [hse2] using this
-        · refine ⟨?_, ?_, ?_⟩
-          · rw [h1]; exact ⟨a, b, k, rfl, rfl, rfl, hout, hoi a b hout⟩
-          · rw [h1]
-            simp at h2
-            rcases h2 with h | h | h <;> (rw [h]; simp [KeyOf])
-          · rw [h1]; simp [hse2]
-
-
-end Old
+/-- History independence of an object with hidden state: if some invariant `Ok` is kept by every call
+and under it a call answers what a fresh object answers, then every history is answered call by call
+as by fresh objects.  (Helper; used for the zoom FFT.) -/
+theorem hidden_state_history_transparent {σ X Y : Type} (call : σ → X → σ × Y) (Ok : σ → Prop)
+    (fresh : σ) (h : ∀ s x, Ok s → Ok (call s x).1 ∧ (call s x).2 = (call fresh x).2) (xs : List X) :
+    ∀ s, Ok s → runObj call s xs = xs.map (fun x => (call fresh x).2) := by
+  induction xs with
+  | nil => intro s _; rfl
+  | cons x xs ih =>
+    intro s hs
+    obtain ⟨h1, h2⟩ := h s x hs
+    simp only [runObj, List.map_cons]
+    rw [h2, ih _ h1]
 
 end HcipyVerif.Cache
